@@ -26,6 +26,6 @@ def run(ctx) -> None:
     from . import jsonrules
     ctx.rules_run.append("J4")
     jsonrules.rule_J4(ctx)  # a member named in a dict / JSON load is selected whatever its value ({} / 0 / ""): only null is skipped
-    for name, fn in (("O1", presence.rule_O1), ("O2", presence.rule_O2), ("O3", presence.rule_O3), ("O4", presence.rule_O4), ("O5", presence.rule_O5), ("O6", presence.rule_O6), ("O7", presence.rule_O7), ("D1", presence.rule_D1)):
+    for name, fn in (("O1", presence.rule_O1), ("O2", presence.rule_O2), ("O3", presence.rule_O3), ("O4", presence.rule_O4), ("O5", presence.rule_O5), ("O6", presence.rule_O6), ("O7", presence.rule_O7), ("O8", presence.rule_O8), ("D1", presence.rule_D1)):
         ctx.rules_run.append(name)
         fn(ctx)
